@@ -662,7 +662,9 @@ def _sample_chains_worker(
             if isinstance(exception, AdaptationError):
                 iter_queue.put(None)
             else:
-                chain_outputs.append((chain_index, outputs))
+                # Also return (copy of) random number generator used by chain so that
+                # parent process can update state of its generator for the chain
+                chain_outputs.append((chain_index, (*outputs, chain_kwargs["rng"])))
             # If returned handled exception was a manual interrupt put exception
             # on iteration queue to communicate to parent process and break
             if isinstance(exception, KeyboardInterrupt):
@@ -704,6 +706,7 @@ def _sample_chains_parallel(
     """Sample multiple chains in parallel over multiple processes."""
     n_iters = [len(it) for it in chain_iterators]
     n_chain = len(chain_iterators)
+    per_chain_rngs = []
     with _ignore_sigint_manager() as manager, _pool_context_manager(n_process) as pool:
         results = None
         exception = None
@@ -716,6 +719,7 @@ def _sample_chains_parallel(
             for c, (chain_kwargs, n_iter) in enumerate(
                 zip(per_chain_kwargs, n_iters, strict=True),
             ):
+                per_chain_rngs.append(chain_kwargs["rng"])
                 # Map memmaps to their filepaths prior to putting on argument queue to
                 # avoid serializing potentially large memory mapped arrays
                 chain_kwargs["chain_stats"] = _memmaps_to_file_paths(
@@ -794,7 +798,18 @@ def _sample_chains_parallel(
             indexed_chain_outputs = [r for res in results.get() for r in res]
             # Sort list by chain index (first element of tuple entries) and
             # then create new list with chain index removed
-            chain_outputs = [outp for i, outp in sorted(indexed_chain_outputs)]
+            chain_outputs = []
+            for chain_index, (*outputs, rng) in sorted(
+                indexed_chain_outputs, key=lambda indexed_output: indexed_output[0]
+            ):
+                chain_outputs.append(outputs)
+                # Random number generators are copied to the worker processes so
+                # propagate state of (advanced) copy used to sample chain back to
+                # generator in parent process so that subsequent sampling stages
+                # continue the chain's random stream rather than replaying it
+                per_chain_rngs[chain_index].bit_generator.state = (
+                    rng.bit_generator.state
+                )
         else:
             chain_outputs = []
     return (*_collate_chain_outputs(chain_outputs), exception)
